@@ -147,4 +147,466 @@ theorem float_nonfinite (nc : NumCodec) (how : Narrow) (f : Fmt)
         omega
 
 
+/-! ### finite floats, well-formedness of produced metadata -/
+
+/-- the two facts used of the number codec -/
+structure NcGood (nc : NumCodec) : Prop where
+  roundTrip : ∀ b, b < 2 ^ 64 → f64.isFinite b = true → nc.rd (nc.fmt b) = some b
+  token : ∀ b, b < 2 ^ 64 → f64.isFinite b = true → tokOk (nc.fmt b)
+
+theorem floatToMeta_finite (nc : NumCodec) (f : Fmt) (hf : f = f16 ∨ f = bf16 ∨ f = f32 ∨ f = f64)
+    (b : Nat) (hfin : f.isFinite b = true) : floatToMeta nc f b = .num (nc.fmt (convertBits f f64 b)) := by
+  obtain ⟨-, -, hinf, hq, hiq⟩ := fmt_facts f hf
+  have hm : b % f.signBit < f.inf := of_decide_eq_true hfin
+  have h1 : f.isInf b = false := by simp [Fmt.isInf, Fmt.mag]; omega
+  have h2 : (b == f.qnan) = false := by
+    simp only [beq_eq_false_iff_ne]; intro h; subst h
+    rw [Nat.mod_eq_of_lt hq] at hm; omega
+  have h3 : f.isNan b = false := by simp [Fmt.isNan, Fmt.mag]; omega
+  simp [floatToMeta, h1, h2, h3]
+
+theorem float_roundtrip' (nc : NumCodec) (hnc : NcGood nc) (how : Narrow) (f : Fmt)
+    (hf : f = f16 ∨ f = bf16 ∨ f = f32 ∨ f = f64) (b : Nat) (hb : b < 2 ^ f.bits) :
+    metaToFloat nc how f (floatToMeta nc f b) = some b := by
+  cases hfin : f.isFinite b
+  · exact (float_nonfinite nc how f hf b hb hfin).1
+  · obtain ⟨h1, h2⟩ := widen_finite f hf b hb hfin
+    rw [floatToMeta_finite nc f hf b hfin]
+    simp only [metaToFloat, hnc.roundTrip _ h1 h2, Option.map_some, narrow_widen how f hf b hb hfin]
+
+
+theorem validUtf8_ascii (s : List Nat) (h : ∀ b ∈ s, b < 128) : validUtf8 s = true := by
+  induction s with
+  | nil => rfl
+  | cons b s ih =>
+    have hb : b < 128 := h b (by simp)
+    have := ih (fun x hx => h x (by simp [hx]))
+    unfold validUtf8; simp [hb, this]
+
+theorem strOk_ascii (s : List Nat) (h : ∀ b ∈ s, b < 128) : strOk s :=
+  ⟨fun b hb => by have := h b hb; omega, validUtf8_ascii s h⟩
+
+theorem hexDigit_lt : ∀ d, d < 16 → (hexDigit d).toNat < 128 := by decide
+
+theorem strOk_hexStr (bs : List Nat) (h : ∀ b ∈ bs, b < 256) : strOk (hexStr bs) := by
+  apply strOk_ascii
+  intro x hx
+  simp only [hexStr, List.cons_append, List.nil_append, List.mem_cons, List.mem_flatMap, List.not_mem_nil,
+    or_false] at hx
+  rcases hx with rfl | rfl | ⟨b, hb, rfl | rfl⟩
+  · decide
+  · decide
+  · exact hexDigit_lt _ (by have := h b hb; omega)
+  · exact hexDigit_lt _ (by omega)
+
+theorem strOk_names : strOk sInfinity ∧ strOk sNegInfinity ∧ strOk sNaN := by
+  refine ⟨strOk_ascii _ ?_, strOk_ascii _ ?_, strOk_ascii _ ?_⟩ <;> decide
+
+theorem floatToMeta_wf (nc : NumCodec) (hnc : NcGood nc) (f : Fmt) (hf : f = f16 ∨ f = bf16 ∨ f = f32 ∨ f = f64)
+    (b : Nat) (hb : b < 2 ^ f.bits) : (floatToMeta nc f b).wf := by
+  cases hfin : f.isFinite b
+  · unfold floatToMeta
+    split
+    · split
+      · simp only [J.wf]; exact strOk_names.2.1
+      · simp only [J.wf]; exact strOk_names.1
+    · split
+      · simp only [J.wf]; exact strOk_names.2.2
+      · split
+        · simp only [J.wf]
+          exact strOk_hexStr _ (fun x hx => natLE_byte _ _ x (List.mem_reverse.mp hx))
+        · rename_i h1 _ h3
+          exfalso
+          simp only [Fmt.isFinite, Fmt.isInf, Fmt.isNan, decide_eq_false_iff_not, beq_iff_eq, decide_eq_true_eq] at hfin h1 h3
+          omega
+  · obtain ⟨h1, h2⟩ := widen_finite f hf b hb hfin
+    rw [floatToMeta_finite nc f hf b hfin]
+    simp only [J.wf]
+    exact hnc.token _ h1 h2
+
+theorem wfList_natToks (bs : List Nat) : wfList (bs.map (fun b => J.num (natTok b))) := by
+  induction bs with
+  | nil => simp [wfList]
+  | cons b bs ih => simp only [List.map_cons, wfList, J.wf]; exact ⟨tokOk_natTok b, ih⟩
+
+
+/-! ### inverses per data type -/
+
+theorem int_inverse (nc : NumCodec) (how : Narrow) (n : Nat) (hn : n = 1 ∨ n = 2 ∨ n = 4 ∨ n = 8)
+    (bs : List Nat) (hlen : bs.length = n) (hbytes : ∀ b ∈ bs, b < 256) :
+    fromMeta nc how (.int n) (.num (intTok (leInt bs))) = some bs := by
+  have hv := leNat_lt bs hbytes
+  have hinv := natLE_leNat bs hbytes
+  simp only [fromMeta, asI64_intTok]
+  rw [hlen] at hv hinv
+  unfold leInt
+  rw [hlen]
+  rcases hn with rfl | rfl | rfl | rfl
+  all_goals
+    generalize leNat bs = v at hv hinv ⊢
+    simp only [Nat.reducePow, Nat.reduceMul, Nat.reduceSub, Int.reducePow, Int.reduceNeg] at hv ⊢
+    by_cases hc : v ≥ 2 ^ (8 * bs.length - 1)
+    all_goals
+      rw [hlen] at hc
+      simp only [Nat.reducePow, Nat.reduceMul, Nat.reduceSub] at hc
+      simp only [hc, if_true, if_false]
+      rw [if_pos (by omega), Option.bind_some, if_pos (by omega)]
+      first
+        | rw [show (((v : Int) - _) % _).toNat = v by omega, hinv]
+        | rw [show ((v : Int) % _).toNat = v by omega, hinv]
+
+
+theorem pow256 (n : Nat) : 256 ^ n = 2 ^ (8 * n) := by
+  rw [Nat.pow_mul]
+
+theorem uint_inverse (nc : NumCodec) (how : Narrow) (n : Nat) (hn : n = 1 ∨ n = 2 ∨ n = 4 ∨ n = 8)
+    (bs : List Nat) (hlen : bs.length = n) (hbytes : ∀ b ∈ bs, b < 256) :
+    fromMeta nc how (.uint n) (.num (natTok (leNat bs))) = some bs := by
+  have hv := leNat_lt bs hbytes
+  have hinv := natLE_leNat bs hbytes
+  rw [hlen] at hv hinv
+  rw [pow256] at hv
+  have h64 : leNat bs < 2 ^ 64 := by
+    refine Nat.lt_of_lt_of_le hv (Nat.pow_le_pow_right (by decide) ?_)
+    omega
+  simp only [fromMeta, asU64_natTok, h64, if_true, Option.bind_some, hv, hinv]
+
+theorem metaToBytes_natToks (bs : List Nat) (hbytes : ∀ b ∈ bs, b < 256) :
+    metaToBytes (.arr (bs.map (fun b => J.num (natTok b)))) = some bs := by
+  simp only [metaToBytes]
+  induction bs with
+  | nil => rfl
+  | cons b bs ih =>
+    have hb := hbytes b (by simp)
+    have hb64 : b < 2 ^ 64 := by omega
+    have := ih (fun x hx => hbytes x (by simp [hx]))
+    simp only [List.map_cons, List.mapM_cons, asU64_natTok, hb64, if_true, Option.bind_some, hb, this,
+      Option.bind_eq_bind, Option.pure_def]
+
+
+theorem leNat_lt_bits (f : Fmt) (hf : f = f16 ∨ f = bf16 ∨ f = f32 ∨ f = f64) (bs : List Nat)
+    (hlen : bs.length = f.bits / 8) (hbytes : ∀ b ∈ bs, b < 256) : leNat bs < 2 ^ f.bits := by
+  have := leNat_lt bs hbytes
+  rw [hlen, (fmt_facts f hf).1] at this
+  exact this
+
+theorem float_inverse (nc : NumCodec) (hnc : NcGood nc) (how : Narrow) (f : Fmt)
+    (hf : f = f16 ∨ f = bf16 ∨ f = f32 ∨ f = f64) (bs : List Nat)
+    (hlen : bs.length = f.bits / 8) (hbytes : ∀ b ∈ bs, b < 256) :
+    fromMeta nc how (.float f) (floatToMeta nc f (leNat bs)) = some bs := by
+  have hinv := natLE_leNat bs hbytes
+  rw [hlen] at hinv
+  simp only [fromMeta, float_roundtrip' nc hnc how f hf _ (leNat_lt_bits f hf bs hlen hbytes), Option.map_some, hinv]
+
+theorem complex_inverse (nc : NumCodec) (hnc : NcGood nc) (how : Narrow) (f : Fmt)
+    (hf : f = f16 ∨ f = bf16 ∨ f = f32 ∨ f = f64) (bs : List Nat)
+    (hlen : bs.length = 2 * (f.bits / 8)) (hbytes : ∀ b ∈ bs, b < 256) :
+    fromMeta nc how (.complex f)
+      (.arr [floatToMeta nc f (leNat (bs.take (f.bits / 8))), floatToMeta nc f (leNat (bs.drop (f.bits / 8)))])
+      = some bs := by
+  have ht : (bs.take (f.bits / 8)).length = f.bits / 8 := by rw [List.length_take]; omega
+  have hd : (bs.drop (f.bits / 8)).length = f.bits / 8 := by rw [List.length_drop]; omega
+  have hbt : ∀ b ∈ bs.take (f.bits / 8), b < 256 := fun b hb => hbytes b (List.mem_of_mem_take hb)
+  have hbd : ∀ b ∈ bs.drop (f.bits / 8), b < 256 := fun b hb => hbytes b (List.mem_of_mem_drop hb)
+  have h1 := natLE_leNat _ hbt
+  have h2 := natLE_leNat _ hbd
+  rw [ht] at h1; rw [hd] at h2
+  simp only [fromMeta, float_roundtrip' nc hnc how f hf _ (leNat_lt_bits f hf _ ht hbt),
+    float_roundtrip' nc hnc how f hf _ (leNat_lt_bits f hf _ hd hbd), h1, h2, List.take_append_drop]
+
+
+/-! ### what accepted metadata looks like -/
+
+theorem mapM_some {α β : Type} (g : α → Option β) (xs : List α) (bs : List β) (h : xs.mapM g = some bs) :
+    (∀ x ∈ xs, (g x).isSome = true) ∧ (∀ b ∈ bs, ∃ x ∈ xs, g x = some b) := by
+  induction xs generalizing bs with
+  | nil =>
+    simp only [List.mapM_nil, Option.pure_def, Option.some.injEq] at h
+    subst h; simp
+  | cons x xs ih =>
+    rw [List.mapM_cons] at h
+    cases hx : g x with
+    | none => simp [hx] at h
+    | some y =>
+      cases hxs : xs.mapM g with
+      | none => simp [hx, hxs] at h
+      | some ys =>
+        simp only [hx, hxs, Option.bind_eq_bind, Option.bind_some, Option.pure_def, Option.some.injEq] at h
+        subst h
+        obtain ⟨i1, i2⟩ := ih ys hxs
+        refine ⟨?_, ?_⟩
+        · intro z hz
+          rcases List.mem_cons.mp hz with rfl | hz
+          · simp [hx]
+          · exact i1 z hz
+        · intro b hb
+          rcases List.mem_cons.mp hb with rfl | hb
+          · exact ⟨x, by simp, hx⟩
+          · obtain ⟨z, hz, hz'⟩ := i2 b hb
+            exact ⟨z, by simp [hz], hz'⟩
+
+theorem metaToBytes_some (j : J) (bs : List Nat) (h : metaToBytes j = some bs) :
+    ∃ xs, j = .arr xs ∧ (∀ x ∈ xs, ∃ t, x = .num t) ∧ (∀ b ∈ bs, b < 256) := by
+  cases j with
+  | arr xs =>
+    simp only [metaToBytes] at h
+    obtain ⟨h1, h2⟩ := mapM_some _ xs bs h
+    refine ⟨xs, rfl, ?_, ?_⟩
+    · intro x hx
+      have := h1 x hx
+      cases x <;> simp at this
+      exact ⟨_, rfl⟩
+    · intro b hb
+      obtain ⟨x, _, hx⟩ := h2 b hb
+      cases x with
+      | num t =>
+        cases hu : asU64 t with
+        | none => simp [hu] at hx
+        | some v =>
+          simp only [hu, Option.bind_some] at hx
+          split at hx
+          · simp at hx; omega
+          · simp at hx
+      | _ => simp at hx
+  | _ => simp [metaToBytes] at h
+
+theorem unhexPairs_some (ds bs : List Nat) (h : unhexPairs ds = some bs) :
+    ds.length = 2 * bs.length ∧ ∀ d ∈ ds, (hexVal d).isSome = true := by
+  fun_induction unhexPairs ds generalizing bs with
+  | case1 => simp at h; subst h; simp
+  | case2 a b rest x y r hr hy hx ih =>
+    simp only [Option.some.injEq] at h
+    subst h
+    obtain ⟨i1, i2⟩ := ih r hr
+    refine ⟨by simp [i1]; omega, ?_⟩
+    intro d hd
+    simp only [List.mem_cons] at hd
+    rcases hd with rfl | rfl | hd
+    · simp [hx]
+    · simp [hy]
+    · exact i2 d hd
+  | case3 => simp at h
+  | case4 => simp at h
+
+theorem float_string_accept' (nc : NumCodec) (how : Narrow) (f : Fmt) (s : Str) (b : Nat)
+    (hs : s ≠ sInfinity ∧ s ≠ sNegInfinity ∧ s ≠ sNaN) (h : metaToFloat nc how f (.str s) = some b) :
+    ∃ ds, s = 48 :: 120 :: ds ∧ ds.length = 2 * (f.bits / 8) ∧ ∀ d ∈ ds, (hexVal d).isSome = true := by
+  simp only [metaToFloat, beq_iff_eq, hs.1, hs.2.1, hs.2.2, if_false] at h
+  cases hu : unhexStr s with
+  | none => simp [hu] at h
+  | some bs =>
+    simp only [hu] at h
+    split at h
+    · rename_i hl
+      unfold unhexStr at hu
+      split at hu
+      · rename_i rest
+        obtain ⟨h1, h2⟩ := unhexPairs_some rest bs hu
+        exact ⟨rest, rfl, by rw [h1, hl], h2⟩
+      · simp at hu
+    · simp at h
+
+
+/-! ### the whole conversion -/
+/-- the data types of C14 (same as `C14.DT.ok`) -/
+def DTok : DT → Prop
+  | .bool => True
+  | .int n => n = 1 ∨ n = 2 ∨ n = 4 ∨ n = 8
+  | .uint n => n = 1 ∨ n = 2 ∨ n = 4 ∨ n = 8
+  | .float f => f = f16 ∨ f = bf16 ∨ f = f32 ∨ f = f64
+  | .complex f => f = f32 ∨ f = f64
+  | .raw _ => True
+  | .bytes => True
+  | .string => True
+
+theorem toMeta_bool (nc : NumCodec) (bs : List Nat) (j : J) (hj : toMeta nc .bool bs = some j) :
+    (bs = [0] ∧ j = .bool false) ∨ (bs = [1] ∧ j = .bool true) := by
+  unfold toMeta at hj
+  split at hj <;> simp_all
+
+/-- the data types that never use the number codec -/
+theorem toMeta_inverse_nonfloat (nc : NumCodec) (how : Narrow) (dt : DT) (hdt : DTok dt)
+    (hnf : ∀ f, dt ≠ .float f ∧ dt ≠ .complex f)
+    (bs : List Nat) (hbytes : ∀ b ∈ bs, b < 256) (j : J) (hj : toMeta nc dt bs = some j) :
+    j.wf ∧ fromMeta nc how dt j = some bs := by
+  cases dt with
+  | bool =>
+    rcases toMeta_bool nc bs j hj with ⟨rfl, rfl⟩ | ⟨rfl, rfl⟩ <;> simp [J.wf, fromMeta]
+  | int n =>
+    simp only [toMeta] at hj
+    split at hj
+    · rename_i hl
+      simp only [Option.some.injEq] at hj; subst hj
+      exact ⟨by simp only [J.wf]; exact tokOk_intTok _, int_inverse nc how n hdt bs (by simpa using hl) hbytes⟩
+    · simp at hj
+  | uint n =>
+    simp only [toMeta] at hj
+    split at hj
+    · rename_i hl
+      simp only [Option.some.injEq] at hj; subst hj
+      exact ⟨by simp only [J.wf]; exact tokOk_natTok _, uint_inverse nc how n hdt bs (by simpa using hl) hbytes⟩
+    · simp at hj
+  | float f => exact absurd rfl (hnf f).1
+  | complex f => exact absurd rfl (hnf f).2
+  | raw n =>
+    simp only [toMeta] at hj
+    split at hj
+    · rename_i hl
+      simp only [Option.some.injEq] at hj; subst hj
+      refine ⟨by simp only [J.wf]; exact wfList_natToks bs, ?_⟩
+      simp only [fromMeta, metaToBytes_natToks bs hbytes, Option.bind_some, hl, if_true]
+    · simp at hj
+  | bytes =>
+    simp only [toMeta, Option.some.injEq] at hj; subst hj
+    exact ⟨by simp only [J.wf]; exact wfList_natToks bs, by simp only [fromMeta, metaToBytes_natToks bs hbytes]⟩
+  | string =>
+    simp only [toMeta] at hj
+    split at hj
+    · rename_i hl
+      simp only [Option.some.injEq] at hj; subst hj
+      exact ⟨by simp only [J.wf]; exact ⟨hbytes, hl⟩, by simp only [fromMeta]⟩
+    · simp at hj
+
+theorem toMeta_inverse (nc : NumCodec) (hnc : NcGood nc) (how : Narrow) (dt : DT) (hdt : DTok dt)
+    (bs : List Nat) (hbytes : ∀ b ∈ bs, b < 256) (j : J) (hj : toMeta nc dt bs = some j) :
+    j.wf ∧ fromMeta nc how dt j = some bs := by
+  by_cases hnf : ∀ f, dt ≠ .float f ∧ dt ≠ .complex f
+  · exact toMeta_inverse_nonfloat nc how dt hdt hnf bs hbytes j hj
+  · cases dt with
+    | float f =>
+      simp only [toMeta] at hj
+      split at hj
+      · rename_i hl
+        have hl' : bs.length = f.bits / 8 := by simpa using hl
+        simp only [Option.some.injEq] at hj; subst hj
+        exact ⟨floatToMeta_wf nc hnc f hdt _ (leNat_lt_bits f hdt bs hl' hbytes),
+          float_inverse nc hnc how f hdt bs hl' hbytes⟩
+      · simp at hj
+    | complex f =>
+      have hf : f = f16 ∨ f = bf16 ∨ f = f32 ∨ f = f64 := by
+        rcases hdt with h | h <;> simp [h]
+      simp only [toMeta] at hj
+      split at hj
+      · rename_i hl
+        have hl' : bs.length = 2 * (f.bits / 8) := by simpa using hl
+        simp only [Option.some.injEq] at hj; subst hj
+        have ht : (bs.take (f.bits / 8)).length = f.bits / 8 := by rw [List.length_take]; omega
+        have hd : (bs.drop (f.bits / 8)).length = f.bits / 8 := by rw [List.length_drop]; omega
+        have hbt : ∀ b ∈ bs.take (f.bits / 8), b < 256 := fun b hb => hbytes b (List.mem_of_mem_take hb)
+        have hbd : ∀ b ∈ bs.drop (f.bits / 8), b < 256 := fun b hb => hbytes b (List.mem_of_mem_drop hb)
+        refine ⟨?_, complex_inverse nc hnc how f hf bs hl' hbytes⟩
+        simp only [J.wf, wfList, and_true]
+        exact ⟨floatToMeta_wf nc hnc f hf _ (leNat_lt_bits f hf _ ht hbt),
+          floatToMeta_wf nc hnc f hf _ (leNat_lt_bits f hf _ hd hbd)⟩
+      · simp at hj
+    | _ => exact absurd (fun f => ⟨by simp, by simp⟩) hnf
+
+
+/-! ### kinds -/
+
+theorem metaToFloat_kind (nc : NumCodec) (how : Narrow) (f : Fmt) (j : J) (a : Nat)
+    (h : metaToFloat nc how f j = some a) : (∃ t, j = .num t) ∨ (∃ s, j = .str s) := by
+  cases j <;> simp [metaToFloat] at h ⊢
+
+theorem fromMeta_complex_some (nc : NumCodec) (how : Narrow) (f : Fmt) (j : J) (bs : List Nat)
+    (h : fromMeta nc how (.complex f) j = some bs) :
+    ∃ re im a b, j = .arr [re, im] ∧ metaToFloat nc how f re = some a ∧ metaToFloat nc how f im = some b ∧
+      bs = natLE (f.bits / 8) a ++ natLE (f.bits / 8) b := by
+  unfold fromMeta at h
+  split at h
+  all_goals first
+    | (rename_i heq; injection heq; done)
+    | (rename_i heq; cases heq; done)
+    | skip
+  all_goals first
+    | (exact absurd h (by simp); done)
+    | skip
+  rename_i f' re im heq
+  injection heq with heq
+  subst heq
+  cases h1 : metaToFloat nc how f re with
+  | none => simp [h1] at h
+  | some a =>
+    cases h2 : metaToFloat nc how f im with
+    | none => simp [h1, h2] at h
+    | some b =>
+      simp only [h1, h2, Option.some.injEq] at h
+      exact ⟨re, im, a, b, rfl, h1, h2, h.symm⟩
+
+theorem fromMeta_complex_kind (nc : NumCodec) (how : Narrow) (f : Fmt) (j : J) (bs : List Nat)
+    (h : fromMeta nc how (.complex f) j = some bs) :
+    ∃ re im, j = .arr [re, im] ∧ ((∃ t, re = .num t) ∨ (∃ s, re = .str s)) ∧ ((∃ t, im = .num t) ∨ (∃ s, im = .str s)) := by
+  obtain ⟨re, im, a, b, h1, h2, h3, -⟩ := fromMeta_complex_some nc how f j bs h
+  exact ⟨re, im, h1, metaToFloat_kind nc how f re a h2, metaToFloat_kind nc how f im b h3⟩
+
+
+/-! ### sizes and ranges -/
+
+theorem bind_if_isSome {α β : Type} (P : Prop) [Decidable P] (x : α) (Q : α → Prop) [DecidablePred Q] (g : α → β) :
+    ((if P then some x else none).bind fun i => if Q i then some (g i) else none).isSome = true ↔ P ∧ Q x := by
+  by_cases hP : P <;> by_cases hQ : Q x <;> simp [hP, hQ]
+
+
+theorem fromMeta_size' (nc : NumCodec) (how : Narrow) (dt : DT) (j : J) (bs : List Nat)
+    (h : fromMeta nc how dt j = some bs) :
+    match dt with
+    | .bool => bs.length = 1
+    | .int n => bs.length = n
+    | .uint n => bs.length = n
+    | .float f => bs.length = f.bits / 8
+    | .complex f => bs.length = 2 * (f.bits / 8)
+    | .raw n => bs.length = n ∧ ∀ b ∈ bs, b < 256
+    | .bytes => ∀ b ∈ bs, b < 256
+    | .string => True := by
+  cases dt with
+  | bool =>
+    cases j <;> simp [fromMeta] at h
+    subst h; rfl
+  | int n =>
+    cases j <;> simp only [fromMeta, reduceCtorEq] at h
+    rename_i t
+    cases ha : asI64 t with
+    | none => simp [ha] at h
+    | some i =>
+      simp only [ha, Option.bind_some] at h
+      split at h
+      · simp only [Option.some.injEq] at h; subst h; exact length_natLE _ _
+      · simp at h
+  | uint n =>
+    cases j <;> simp only [fromMeta, reduceCtorEq] at h
+    rename_i t
+    cases ha : asU64 t with
+    | none => simp [ha] at h
+    | some i =>
+      simp only [ha, Option.bind_some] at h
+      split at h
+      · simp only [Option.some.injEq] at h; subst h; exact length_natLE _ _
+      · simp at h
+  | float f =>
+    simp only [fromMeta] at h
+    cases hm : metaToFloat nc how f j with
+    | none => simp [hm] at h
+    | some a =>
+      simp only [hm, Option.map_some, Option.some.injEq] at h; subst h; exact length_natLE _ _
+  | complex f =>
+    obtain ⟨re, im, a, b, -, -, -, rfl⟩ := fromMeta_complex_some nc how f j bs h
+    simp only [List.length_append, length_natLE]; omega
+  | raw n =>
+    simp only [fromMeta] at h
+    cases hm : metaToBytes j with
+    | none => simp [hm] at h
+    | some bs' =>
+      simp only [hm, Option.bind_some] at h
+      split at h
+      · rename_i hl
+        simp only [Option.some.injEq] at h; subst h
+        obtain ⟨xs, -, -, h3⟩ := metaToBytes_some j bs' hm
+        exact ⟨by simpa using hl, h3⟩
+      · simp at h
+  | bytes =>
+    obtain ⟨xs, -, -, h3⟩ := metaToBytes_some j bs h
+    exact h3
+  | string => trivial
+
+
 end Zarrs.FillMeta
